@@ -126,6 +126,8 @@ structure GCtx where
   smax : Nat                           -- largest frame
   lo : Nat                             -- lowest stack pointer of any activation
   pk : Bool := false                   -- class v3: calls of pure functions in operands
+  abase : Nat → Nat := fun _ => 0      -- word address of the global array with the given id
+  asize : Nat → Nat := fun _ => 0      -- its length
 
 def GCtx.S (G : GCtx) (pi : PInfo) : Nat := (frameOf G.cg pi.idx).size
 def GCtx.xl (G : GCtx) (pi : PInfo) : String := (frameOf G.cg pi.idx).exitLabel
@@ -185,13 +187,23 @@ theorem GCtx.locOf_cases (G : GCtx) (pi : PInfo) (sp : Nat) (n : String) (a : Na
 def KOf (G : GCtx) (pi : PInfo) (sp dep : Nat) (hi : Nat → Word) : PCtx :=
   { env := G.env, out := G.cg, ctx := G.ctxOf pi, xc := G.xc, ρ := fun _ => none, sp := sp,
     loc := G.locOf pi sp, consts := G.consts, nlocals := pi.p.locals.length, hi := hi,
-    gnames := G.gnames ++ G.pnames, dep := dep }
+    gnames := G.gnames ++ G.pnames, dep := dep, abase := G.abase, asize := G.asize }
+
+/-- The same program context without its arrays (for facts that do not depend on them). -/
+def GCtx.noArr (G : GCtx) : GCtx := { G with asize := fun _ => 0 }
 
 theorem KOf_S (G : GCtx) (pi : PInfo) (sp dep : Nat) (hi : Nat → Word) : (KOf G pi sp dep hi).S = G.S pi := rfl
 
+/-- The word `a` is an element of a global array. -/
+def GCtx.inArr (G : GCtx) (a : Nat) : Prop := ∃ id, G.abase id ≤ a ∧ a < G.abase id + G.asize id
+
 /-- The global state in memory, independently of any scope. -/
 structure GRep (G : GCtx) (σ : X.St) (mem : Mem) : Prop where
-  gvars : ∀ n w, n ∈ G.gnames → σ.gvars.lookup n = some (some w) → ∃ a, G.gloc n = some a ∧ mem.read a = w
+  gvars : ∀ n w, G.xc.genv.lookup n = some .var → σ.gvars.lookup n = some (some w) → ∃ a, G.gloc n = some a ∧ mem.read a = w
+  aptr : ∀ n id, G.xc.genv.lookup n = some (.array id) →
+    ∃ a, G.gloc n = some a ∧ mem.read a = BitVec.ofNat 32 (G.abase id)
+  acells : ∀ id cells, σ.arrays[id]? = some cells → cells.size = G.asize id ∧
+    ∀ idx w, cells[idx]? = some (some w) → mem.read (G.abase id + idx) = w
   consts : ∀ v l j k, (v, l) ∈ G.consts → G.env.ds[j]? = some (.label k l) → mem.read (G.env.addr j / 4) = IAm.W v
 
 def PInfo.lnames (pi : PInfo) : List String := pi.p.formals.map X.Formal.name ++ pi.p.locals.map X.Decl.name
@@ -215,7 +227,9 @@ structure GCtx.OK (G : GCtx) : Prop where
   resolve : ∀ f p, G.xc.genv.lookup f = some (.proc p) → ∃ pi ∈ G.procs, pi.p = p ∧ p.name = f
   callee_sym : ∀ pi ∈ G.procs, ∀ pj ∈ G.procs, ∃ sym, G.cg.tbl.lookup pi.p.name pj.p.name = .ok sym ∧
     (sym.type = .func ↔ pj.p.isFunc = true)
-  genv_vars : ∀ n, n ∈ G.gnames ↔ G.xc.genv.lookup n = some .var
+  genv_vars : ∀ n, G.xc.genv.lookup n = some .var → n ∈ G.gnames
+  genv_arrs : ∀ n id, G.xc.genv.lookup n = some (.array id) → n ∈ G.gnames
+  gnames_genv : ∀ n ∈ G.gnames, G.xc.genv.lookup n = some .var ∨ ∃ id, G.xc.genv.lookup n = some (.array id)
   no_vals : ∀ n w, G.xc.genv.lookup n ≠ some (.val w)
   pnames_ok : ∀ f p, G.xc.genv.lookup f = some (.proc p) → f ∈ G.pnames
   pnames_mem : ∀ f ∈ G.pnames, ∃ p, G.xc.genv.lookup f = some (.proc p)
@@ -238,6 +252,9 @@ structure GCtx.OK (G : GCtx) : Prop where
   lo_def : G.lo + X.maxDepth * G.smax ≤ G.spv
   addr_lt : ∀ j k n, G.env.ds[j]? = some (.label k n) → G.env.addr j < 2 ^ 32
   const_lo : ∀ v l j k, (v, l) ∈ G.consts → G.env.ds[j]? = some (.label k l) → G.env.addr j / 4 < G.lo
+  arr_hi : ∀ id, G.asize id ≠ 0 → G.spv + 2 < G.abase id ∧ G.abase id + G.asize id ≤ memWords
+  arr_disj : ∀ id1 id2, id1 ≠ id2 → G.asize id1 ≠ 0 → G.asize id2 ≠ 0 →
+    G.abase id1 + G.asize id1 ≤ G.abase id2 ∨ G.abase id2 + G.asize id2 ≤ G.abase id1
 
 /-- **Specification of a callee**, independent of the caller: entered at its prologue with the
     link address in areg, the caller's stack pointer `spc` in word 1 and the actuals in the
@@ -253,7 +270,7 @@ def CallSpec (G : GCtx) (fuel : Nat) : Prop :=
     match X.callUser fuel G.xc pi.p (ws.map Val.int) st with
     | .ok res s' => ∃ a' b' mem', Steps G.env (cfg pi.iPro lnk b mem) st.io (cfg k a' b' mem') s'.io ∧
         GRep G s' mem' ∧ mem'.read 1 = BitVec.ofNat 32 spc ∧
-        (∀ x, spc < x → x ≠ spc + 1 → mem'.read x = mem.read x) ∧
+        (∀ x, spc < x → x ≠ spc + 1 → ¬ G.inArr x → mem'.read x = mem.read x) ∧
         (∀ w, res = some w → mem'.read (spc + 1) = w) ∧
         (pi.p.isFunc = false → mem'.read (spc + 1) = mem.read (spc + 1))
     | .exit code s' => ∃ c, Steps G.env (cfg pi.iPro lnk b mem) st.io c s'.io ∧ Exit G.env c s'.io code
